@@ -490,8 +490,8 @@ Definition cls_step (cls : list closure) (o : op) : list closure :=
 Definition cls_at (cls : list closure) (pre : list op) : list closure := fold_left cls_step pre cls.
 
 Section Hist.
-Variable child_out : list string -> string.
-Variable child_exit : list string -> nat.
+Variable child_out : list (string * string) -> list string -> string.
+Variable child_exit : list (string * string) -> list string -> nat.
 Variable h0 : heap.                       (* the arrays the caller can see: everything that exists before *)
 
 Definition op_ok (o : op) : Prop :=
@@ -624,9 +624,9 @@ Lemma thm_closure_is_run : forall penv cls pre c extra post cl,
   let argv := map (expand_env env_i) (cl_cmd cl :: contents h0 (cl_baked cl) ++ contents h0 extra) in
   exists h', nth_error (run_history child_out child_exit true penv cls h0 (pre ++ CallClosure c extra :: post)) (length pre)
              = Some (OCall argv
-                           (match cl_kind cl with KRun => None | KOut => Some (trim_nl (child_out argv)) end)
-                           (match cl_kind cl with KRun => if verbose env_i then child_out argv else "" | KOut => "" end)
-                           (child_exit argv), h').
+                           (match cl_kind cl with KRun => None | KOut => Some (trim_nl (child_out env_i argv)) end)
+                           (match cl_kind cl with KRun => if verbose env_i then child_out env_i argv else "" | KOut => "" end)
+                           (child_exit env_i argv), h').
 Proof.
   intros penv cls pre c extra post cl Hcls Hok Hc env_i argv.
   destruct (history_nth pre penv cls h0 (CallClosure c extra) post Hcls (firstn_all h0) Hok) as (h' & H & _).
@@ -688,7 +688,7 @@ Lemma thm_closure_is_run_before_repair_refuted : forall child_out child_exit,
   exists h0 penv pre c extra post,
     Forall (op_ok h0) (pre ++ CallClosure c extra :: post) /\
     exists ob h', nth_error (run_history child_out child_exit false penv [] h0 (pre ++ CallClosure c extra :: post)) (length pre) = Some (ob, h') /\
-                  ob = OCall ["echo"; "one"] (Some (trim_nl (child_out ["echo"; "one"]))) "" (child_exit ["echo"; "one"]) /\
+                  ob = OCall ["echo"; "one"] (Some (trim_nl (child_out (env_at penv pre) ["echo"; "one"]))) "" (child_exit (env_at penv pre) ["echo"; "one"]) /\
                   spec_argv h0 (cls_at [] pre) (env_at penv pre) (CallClosure c extra) = ["echo"; "two"] /\
                   firstn (length h0) h' <> h0.
 Proof.
@@ -745,8 +745,8 @@ Definition nv_ops : list op :=
    CallClosure 1 nil_slice; SetEnv "MAGEFILE_VERBOSE" "1"; CallClosure 1 nil_slice;
    CallDirect FOutput [] "echo" (sl 0 1 2 3); CallDirect FRunWith [("V", "m")] "$C" (sl 1 0 1 1)].
 Definition nl : string := String (ascii_of_nat 10) EmptyString.
-Definition nv_out (argv : list string) : string := String.concat " " (tl argv) ++ nl.
-Definition nv_exit (argv : list string) : nat := if existsb (String.eqb "--exit=3") argv then 3 else 0.
+Definition nv_out (_ : list (string * string)) (argv : list string) : string := String.concat " " (tl argv) ++ nl.
+Definition nv_exit (_ : list (string * string)) (argv : list string) : nat := if existsb (String.eqb "--exit=3") argv then 3 else 0.
 
 Lemma nonvacuous_c16 :
   Forall (op_ok nv_h0) nv_ops /\
